@@ -91,6 +91,7 @@ package cache
 //@   ensures [lock-released] c != nil ==> !held(c.mu)
 //@   ensures [inv] c != nil ==> cacheInv(c)
 //@   ensures [found] c != nil && old(key in c.entries) ==> err == nil && val == old(c.entries[key].value) && c.entries[key].used >= old(clock())
+//@   ensures [clock-monotone] clock() >= old(clock())
 //@   ensures [missing] c == nil || !old(key in c.entries) ==> err != nil
 //@   ensures [entries-same] c != nil ==> forall k2: k :: ((k2 in c.entries) <==> old(k2 in c.entries)) && c.entries[k2] == old(c.entries[k2]) && (old(k2 in c.entries) ==> c.entries[k2].value == old(c.entries[k2].value))
 
